@@ -45,6 +45,7 @@ package ptracer
 
 //@ func ptracer.vmReadStr props C15
 //@   arith int
+//@   overflow wrap
 //@   assigns all(buff)
 //@   loop 0: invariant nextRead >= 1
 //@   loop 0: invariant totalRead >= 0
